@@ -105,7 +105,14 @@ func libSign(mt string, ch *pki.Chain, tag string, rich bool, scheme signature.S
 		req.SigningTime = sims.SignTime.In(time.FixedZone("", 2*3600+30*60))
 		req.Expiry = sims.SignTime.AddDate(2, 0, 0).In(time.FixedZone("", -7*3600))
 		req.SigningAgent = "c01/agent"
-		req.ExtendedSignedAttributes = []signature.Attribute{{Key: "io.example.crit", Critical: true, Value: "v"}, {Key: "io.example.plain", Value: "w"}}
+		// which attribute is critical, and where it sorts among the names, varies
+		// from corpus member to corpus member
+		req.ExtendedSignedAttributes = [][]signature.Attribute{
+			{{Key: "io.example.only", Critical: true, Value: "v"}},
+			{{Key: "io.example.crit", Critical: true, Value: "v"}, {Key: "io.example.plain", Value: "w"}},
+			{{Key: "io.example.a-plain", Value: "w"}, {Key: "io.example.z-crit", Critical: true, Value: "v"}},
+			{{Key: "io.example.crit1", Critical: true, Value: "v"}, {Key: "io.example.crit2", Critical: true, Value: []any{"w", "x"}}, {Key: "io.example.plain", Value: "w"}},
+		}[int(tag[0])%4]
 	}
 	if strings.HasPrefix(tag, "T") {
 		// a countersigned envelope: its unsigned part carries a well-formed
